@@ -302,22 +302,23 @@ impl PartialOrd for Fp {
 
 
 def generate_fmt(with_deriv):
-    """model of core::fmt::Formatter for rule R6: a ghost trace of output pieces.  Literal text is identified by the
-    FNV-1a 64 hash of its UTF-8 bytes (computed by the extractor); float printing itself is outside the model."""
+    """model of core::fmt::Formatter for rule R6: a ghost trace of output pieces.  Literal text of format strings is
+    traced byte by byte (so the trace does not depend on how text is split over write! calls); `&str` arguments (the part symbols,
+    the join separator) are identified by the FNV-1a 64 hash of their bytes; float printing itself is outside the model."""
     part = "Joined(Mx, u64), Mat(Mx), " if with_deriv else ""
     s = f"""
 // ===================== formatter model (C18, rule R6) =====================
-pub enum Piece {{ Lit(u64), Val(real), {part}}}
+pub enum Piece {{ Ch(u8), Sym(u64), Val(real), {part}}}
 #[verifier::external_body] pub struct Fmt {{ v: u8 }}
 pub struct FmtResult {{ pub ok: bool }}
 pub fn fmt_ok() -> (r: FmtResult) {{ FmtResult {{ ok: true }} }}
 // what `{{}}` prints for a value of the type: one piece of the trace
 pub trait Shown {{ spec fn piece(&self) -> Piece; }}
 impl Shown for Sc {{ open spec fn piece(&self) -> Piece {{ Piece::Val(self@) }} }}
-impl Shown for u64 {{ open spec fn piece(&self) -> Piece {{ Piece::Lit(*self) }} }}
+impl Shown for u64 {{ open spec fn piece(&self) -> Piece {{ Piece::Sym(*self) }} }}
 impl Fmt {{
     pub uninterp spec fn trace(&self) -> Seq<Piece>;
-    #[verifier::external_body] pub fn lit(&mut self, id: u64) ensures final(self).trace() == old(self).trace().push(Piece::Lit(id)) {{ unimplemented!() }}
+    #[verifier::external_body] pub fn ch(&mut self, b: u8) ensures final(self).trace() == old(self).trace().push(Piece::Ch(b)) {{ unimplemented!() }}
     #[verifier::external_body] pub fn disp<T: Shown>(&mut self, x: &T) ensures final(self).trace() == old(self).trace().push(x.piece()) {{ unimplemented!() }}
 }}
 """
@@ -341,13 +342,13 @@ impl Mx {
 }
 pub open spec fn mx_trace(t: Seq<Piece>, m: Mx) -> Seq<Piece> {
     if m.nrows() == 1 && m.ncols() == 1 { t.push(Piece::Val(m.at(0, 0))) }
-    else if m.nrows() == 1 || m.ncols() == 1 { t.push(Piece::Lit(LIT_OPEN)).push(Piece::Joined(m, LIT_SEP)).push(Piece::Lit(LIT_CLOSE)) }
+    else if m.nrows() == 1 || m.ncols() == 1 { t.push(Piece::Ch(91u8)).push(Piece::Joined(m, LIT_SEP)).push(Piece::Ch(93u8)) }
     else { t.push(Piece::Mat(m)) }
 }
 pub open spec fn part_trace(t: Seq<Piece>, d: Derivative, sym: u64) -> Seq<Piece> {
-    match d.0 { Some(m) => mx_trace(t.push(Piece::Lit(LIT_PLUS)), m).push(Piece::Lit(sym)), None => t }
+    match d.0 { Some(m) => mx_trace(t.push(Piece::Ch(32u8)).push(Piece::Ch(43u8)).push(Piece::Ch(32u8)), m).push(Piece::Sym(sym)), None => t }
 }
-""".replace("LIT_PLUS", "%du64" % fnv(" + ")).replace("LIT_OPEN", "%du64" % fnv("[")).replace("LIT_CLOSE", "%du64" % fnv("]")).replace("LIT_SEP", "%du64" % fnv(", "))
+""".replace("LIT_SEP", "%du64" % fnv(", "))
     return s
 
 
